@@ -51,6 +51,7 @@ func checkC02(ctx *Ctx, r *Report) {
 	c02JavaPackageSegments(ctx, r)
 	c02JavaClassNamesFormatted(ctx, r)
 	c10SeventhHunt(ctx, r)                // the branch of a union that holds a numeric default: `Any: (func (input unknown) …)` does not type-check
+	c10EighthHunt(ctx, r)                 // defaults of bytes fields and of lists of date-times: strings where []byte / time.Time are declared
 	c10GoNestedOverrideRecurses(ctx, r)   // a struct default holding another struct: `Inner: map[string]interface {}{…}` does not type-check
 	c16FourthHunt(ctx, r)                 // a union branch referring to a constant: the Go builder does not type-check
 	c01SeventhRound(ctx, r, false)        // OpenAPI nullable object components: `type Inner *struct{…}`, `&Inner{}`
